@@ -25,7 +25,8 @@ def load_baseline():
             if not l:
                 continue
             parts = l.split('\t')
-            out[parts[0]] = (int(parts[1]), parts[2]) if len(parts) >= 3 else (None, None)
+            out[parts[0]] = (int(parts[1]), parts[2], parts[3] if len(parts) > 3 else None) if len(parts) >= 3 \
+                else (None, None, None)
     return out
 
 
@@ -53,7 +54,7 @@ def renamed_helpers(facts, norm):
     rx_nargs = re.compile(r'"nargs":(\d+)')
     resigned = set()
     for np_, sig in base.items():
-        if np_ in present and sig[0] is not None:
+        if np_ in present and sig[0] is not None and len(facts.norm_index.get(np_, [])) == 1:
             m = rx_nargs.search(facts._raw[present[np_]][0][:4000])
             if m and int(m.group(1)) != sig[0]:
                 resigned.add(np_)
@@ -72,7 +73,9 @@ def renamed_helpers(facts, norm):
     new = [np_ for np_ in present if np_ not in base]
     for np_ in new:
         d = json.loads(facts._raw[present[np_]][0])
-        sig = (d['nargs'], d['locals'][0])
+        # a rename keeps arity, return type AND parameter types (a helper that merges two old ones, or passes its
+        # inputs differently, is a new function: it is spliced into its callers instead)
+        sig = (d['nargs'], d['locals'][0], ' | '.join(d['locals'][1:d['nargs'] + 1]))
         scope = scope_of(np_)
         # same scope, or a sibling impl block of the same type (`impl T { .. }` split in two prints the same scope)
         if missing.get((scope, sig)):
